@@ -360,6 +360,45 @@ M = [
 		m[k] = v
 		flip := [2]byte{k[1], k[0]}
 		if k[0] != k[1] {"""),
+ # hidden shared mutable state: right for one call at a time, wrong when calls run at the same time (the "parallel" units)
+ ("C02-write-through-package-level-buffer", "formats/fastq/fastq.go",
+  """func (f *Fastq) Write(w io.Writer) error {
+	_, err := fmt.Fprintf(w, "@%s\\n%s\\n+\\n%s\\n", f.Name, f.Sequence, f.Quals)
+	return err
+}""",
+  """var writeBuf []byte
+
+func (f *Fastq) Write(w io.Writer) error {
+	writeBuf = fmt.Appendf(writeBuf[:0], "@%s\\n%s\\n+\\n%s\\n", f.Name, f.Sequence, f.Quals)
+	_, err := w.Write(writeBuf)
+	return err
+}"""),
+ ("C12-revcompstring-package-level-scratch", "sequtil/sequtil.go",
+  """func ReverseComplementString(s string) string {
+	builder := &strings.Builder{}
+	builder.Grow(len(s))
+	for i := len(s) - 1; i >= 0; i-- {
+		builder.WriteByte(complementByte(s[i]))
+	}
+	return builder.String()
+}""",
+  """var rcScratch []byte
+
+func ReverseComplementString(s string) string {
+	rcScratch = rcScratch[:0]
+	for i := len(s) - 1; i >= 0; i-- {
+		rcScratch = append(rcScratch, complementByte(s[i]))
+	}
+	return string(rcScratch)
+}"""),
+ ("C15-foreach-package-level-path-buffer", "trie/trie.go",
+  """	stack := []*forEachStep{{t, t.keys(), 0}}
+	var cur []byte
+	for {""",
+  """	stack := []*forEachStep{{t, t.keys(), 0}}
+	cur := pathBuf[:0]
+	defer func() { pathBuf = cur[:0] }()
+	for {"""),
 ]
 def gen(name, path, old, new, text=None):
     src = open('/repo/'+path).read()
@@ -369,7 +408,14 @@ def gen(name, path, old, new, text=None):
         text = src.replace(old, new)
     d = difflib.unified_diff(src.splitlines(True), text.splitlines(True), 'a/'+path, 'b/'+path)
     open(os.path.join(OUT, name+'.diff'),'w').write(''.join(d))
+PRE = {"C12-revcompstring-package-level-scratch": ('\t"strings"\n', ''),
+ "C15-foreach-package-level-path-buffer": ("// ForEach calls f for each final sequence (leaf) in the trie.", "var pathBuf []byte\n\n// ForEach calls f for each final sequence (leaf) in the trie.")}
 for name, path, old, new in M:
+    if name in PRE:
+        src = open('/repo/'+path).read()
+        assert src.count(old) == 1 and src.count(PRE[name][0]) == 1, name
+        gen(name, path, None, None, src.replace(old, new).replace(PRE[name][0], PRE[name][1]))
+        continue
     if name == "C03-flag-setter-wrong-bit":
         src = open('/repo/'+path).read()
         i = src.index('func (f *Flag) SetDuplicate(value bool) {')
